@@ -285,6 +285,17 @@ func checkC14(c *Ctx) {
 		var text string
 		if i%3 == 2 {
 			text = genLexGrammar(rng, lexGenOpts{MaxToks: 3, MaxIgn: 1, MaxDefs: 2, MaxLits: 0, Depth: 2}).render()
+		} else if i%6 == 1 {
+			// a file with a syntax part only: every terminal is a string literal
+			o := c02Opts
+			o.PEmpty, o.PLit, o.Actions, o.POptRun = 0, 1.0, false, 0
+			g := genSynGrammar(rng, o)
+			allLit := true
+			for _, l := range g.IsLit {
+				allLit = allLit && l
+			}
+			g.NoLexDefs = allLit
+			text = g.render()
 		} else {
 			o := c02Opts
 			o.PEmpty = 0
